@@ -112,8 +112,8 @@ Qed.
 
 Lemma recv_body_total cfg e lie o p pl f t : total (recv_body repaired cfg (chain_actions cfg e) e lie o p pl f t).
 Proof.
-  intros s x. unfold recv_body. revert x. change (forall x, ?m s <> PPanic x) with (forall x, m s <> PPanic x).
-  apply (total_bind _ _).
+  unfold recv_body. apply total_bind; [intros s x; discriminate|]. intros prior.
+  apply total_bind.
   - destruct (0 <? _); [apply total_ext_moving|apply total_ret].
   - intros _. apply total_bind; [apply total_ext_moving|]. intros _.
     apply total_bind; [apply dispatch_actions_total|]. intros t'.
@@ -210,4 +210,22 @@ Proof.
     destruct (ext _ s1) as [v s2]. destruct v; discriminate.
   - discriminate.
   - exfalso. eapply Hb; eauto.
+Qed.
+
+(* statistics failures are swallowed: the update always returns a state *)
+Lemma update_stats_ok o t f : exists o', update_stats_swallow true o t f = Ok o'.
+Proof.
+  pose proof (update_stats_total o t f) as Hp.
+  unfold update_stats_swallow in *. destruct (f_attrs f) as [a|]; [|eauto].
+  destruct (counterparty_of a) as [cp|]; [|eauto].
+  destruct (_ || _); [eauto|].
+  assert (Hfin : forall o1 ck, exists o', match update_count o1 ck with Ok o2 => Ok o2 | Err _ => Ok o1 | Panic x => Panic x end = Ok o').
+  { intros o1 ck. pose proof (update_count_total o1 ck). destruct (update_count o1 ck); try discriminate; eauto. }
+  destruct (String.eqb _ _).
+  - match goal with |- context [update_amount true ?a ?b ?c ?d] =>
+      pose proof (update_amount_strict_total a b c d); destruct (update_amount true a b c d) end; try discriminate; [apply Hfin|eauto].
+  - match goal with |- context [update_amount true o ?b ?c ?d] =>
+      pose proof (update_amount_strict_total o b c d); destruct (update_amount true o b c d) as [o1| |] end; try discriminate; [|eauto].
+    match goal with |- context [update_amount true o1 ?b ?c ?d] =>
+      pose proof (update_amount_strict_total o1 b c d); destruct (update_amount true o1 b c d) end; try discriminate; [apply Hfin|eauto].
 Qed.
